@@ -226,7 +226,13 @@ def _handshake(run, PV, DA):
     fn = P.method(DA, "handshake")
     g = A.cfg(fn, DA)
     L = Layout(lambda e: try_fold(P, e, fn, DA))
-    mk = fn.params[1]
+    # the key both certificates are signed with: the caller's master key, or a fresh one when none was given
+    recvs = {norm(c.func.value) for c in find_calls(A, fn, "ecdsa_sign")}
+    run.require(len(recvs) == 1 and next(iter(recvs)).isidentifier(), f"DongleAdmin.handshake: the signing key of the certificates is not one local ({sorted(recvs)})")
+    mk = next(iter(recvs))
+    mk_defs = sorted(_strip(norm(d_.value)) for d_ in PV.defs(fn, DA).get(mk, []) if d_.value is not None)
+    run.check("R2h", set(mk_defs) <= {"ec.PrivateKey()", fn.params[1]} and (mk == fn.params[1] or fn.params[1] in mk_defs), "the certificates are signed with the master key given (or a fresh one)",
+              key="handshake|master-key", where=fn.loc(), message=f"handshake signs its certificates with `{mk}` = {mk_defs}; expected the master_key argument, defaulting to ec.PrivateKey()")
     roles = {}
     for nm_, ds_ in PV.defs(fn, DA).items():
         for d_ in ds_:
